@@ -276,6 +276,7 @@ func (c *Ctx) mustFn(key string) *ssa.Function {
 		// the anchor of the rule is gone (renamed, moved, removed): the rule cannot decide
 		c.obs = append(c.obs, Obligation{c.curRule, key, "-", "undecided", "anchored function " + key + " not found in the analysed program: the rule lost its subject and cannot decide"})
 	}
+	c.scope(f)
 	return f
 }
 
@@ -356,6 +357,17 @@ func instrs(fn *ssa.Function, f func(b *ssa.BasicBlock, i int, ins ssa.Instructi
 	instrsSeen(fn, f, map[*ssa.Function]bool{})
 }
 
+// instrsAll visits fn, its closures and the new helpers they call (with their closures): the whole
+// code that belongs to fn, wherever a refactoring put it.
+func instrsAll(fn *ssa.Function, f func(b *ssa.BasicBlock, i int, ins ssa.Instruction)) {
+	seen := map[*ssa.Function]bool{}
+	for _, g := range fnsDeep(fn) {
+		for _, h := range withClosures(g) {
+			instrsSeen(h, f, seen)
+		}
+	}
+}
+
 // instrsSeen visits the instructions of fn and, as if they were inlined, those of the new helper
 // functions (see known.go) it calls.
 func instrsSeen(fn *ssa.Function, f func(b *ssa.BasicBlock, i int, ins ssa.Instruction), seen map[*ssa.Function]bool) {
@@ -383,6 +395,21 @@ func calls(fn *ssa.Function, match func(name string) bool) []ssa.CallInstruction
 	var out []ssa.CallInstruction
 	instrs(fn, func(_ *ssa.BasicBlock, _ int, ins ssa.Instruction) {
 		if ci, ok := ins.(ssa.CallInstruction); ok {
+			if match(callee(ci)) {
+				out = append(out, ci)
+			}
+		}
+	})
+	return out
+}
+
+// callsAll is calls() over fn, its closures and the new helpers they use.
+func callsAll(fn *ssa.Function, match func(name string) bool) []ssa.CallInstruction {
+	var out []ssa.CallInstruction
+	seen := map[ssa.Instruction]bool{}
+	instrsAll(fn, func(_ *ssa.BasicBlock, _ int, ins ssa.Instruction) {
+		if ci, ok := ins.(ssa.CallInstruction); ok && !seen[ins] {
+			seen[ins] = true
 			if match(callee(ci)) {
 				out = append(out, ci)
 			}
